@@ -71,11 +71,16 @@ pub fn lex_number(source: &[char]) -> Option<FoundToken> {
         return None;
     }
 
-    let end = source
+    // Only characters that can be part of a decimal literal are candidates. Whatever
+    // follows them, however far away, must not influence where the number ends.
+    let candidate_len = source
         .iter()
-        .enumerate()
-        .rev()
-        .find_map(|(i, v)| v.is_ascii_digit().then_some(i))?;
+        .take_while(|c| c.is_ascii_digit() || matches!(c, '.' | 'e' | 'E' | '+' | '-'))
+        .count();
+
+    let end = source[..candidate_len]
+        .iter()
+        .rposition(|c| c.is_ascii_digit())?;
 
     let mut s: String = source[0..end + 1].iter().collect();
 
